@@ -717,6 +717,23 @@ def make_canaries(batch_seed, tier):
             if key not in seen:
                 seen.add(key)
                 out.append({"ops": ops_, "key": key})
+    # same-named helpers that agree in argument names, bit widths and boolean expressions but differ
+    # in their high-level types, each with a caller that uses the result in a type-directed way
+    import random as _random
+
+    for ty in ("Qint[2]", "Tuple[bool, bool]", "Qlist[bool, 2]", "Qint[4]", "Qfixed[2, 2]"):
+        hsrc = f"def sel(c: bool, x: {ty}, y: {ty}) -> {ty}:\n    return x if c else y\n"
+        argsig = [["c", "bool"], ["x", ty], ["y", ty]]
+        csrc = progs.twin_caller("sel", argsig, ty, "top", _random.Random(len(ty)))
+        h = cs(0, hsrc)
+        h["meta"] = {"id": "twin", "twin": True, "argsig": argsig, "retsig": ty, "nargs": 3, "in_bits": 5, "compiled": True}
+        c_ = cs(1, csrc, defs=[0])
+        c_["uses"] = [0]
+        ops_ = [h, c_]
+        key = digest([{k: x for k, x in o.items() if k not in ("rk", "meta", "name")} for o in ops_], 16)
+        if key not in seen:
+            seen.add(key)
+            out.append({"ops": ops_, "key": key})
     gc_ = Gen(int(digest(["canary-custom", batch_seed], 15), 16), tier)
     for w in (9, 10, 11):
         pick, differ, probe = gc_.custom_ops(w, with_types=False)
